@@ -183,3 +183,11 @@ MUTANTS += [
     dict(id="c15-inner-any-dtype-kept", property="C15", edits=[(A, "        if dtypes is _any_dtype:\n            dtypes = array_type.dtypes\n", "        if dtypes is _any_dtype:\n            pass\n")]),
     dict(id="c15-scalar-alias-wrong", property="C15", edits=[("jaxtyping/__init__.py", 'return Shaped[jax.Array, ""]', 'return Shaped[jax.Array, "..."]')]),
 ]
+
+MUTANTS += [
+    # ---- C20
+    dict(id="c20-reducer-drops-arraytype", property="C20", edits=[(A, "        return x.dtype.__getitem__, (x._pickle_args,)", "        return x.dtype.__getitem__, ((Any, x._pickle_args[1]),)")]),
+    dict(id="c20-reducer-flattened", property="C20", edits=[(A, "        return x.dtype.__getitem__, (x._pickle_args,)", "        return x.dtype.__getitem__, ((x.array_type, x.dim_str),)")]),
+    dict(id="c20-sentinel-by-value", property="C20", edits=[(A, "    def __reduce__(self):\n        return self._name\n", "")]),
+    dict(id="c20-reducer-strips-dims", property="C20", edits=[(A, "        return x.dtype.__getitem__, (x._pickle_args,)", "        return x.dtype.__getitem__, ((x._pickle_args[0], x._pickle_args[1].replace('#', '')),)")]),
+]
